@@ -64,6 +64,7 @@ type line struct {
 	WallMs       int64                  `json:"wall_ms"`
 	StoppedAt    *int64                 `json:"stopped_at"`
 	Why          string                 `json:"why"`
+	Known        bool                   `json:"known"`
 	Minimise     string                 `json:"minimise"`
 	Out          string                 `json:"out"`
 	Tries        int                    `json:"tries"`
@@ -185,6 +186,8 @@ type agg struct {
 	scens                            map[uint64]bool
 	samples                          []json.RawMessage
 	fails                            []line
+	knownFails                       []line
+	knownCount                       int64
 	strategies                       map[string]int64
 }
 
@@ -222,7 +225,14 @@ func (a *agg) add(l line) {
 		a.samples = append(a.samples, l.Scenario)
 	}
 	if !l.OK {
-		a.fails = append(a.fails, l)
+		if l.Known {
+			a.knownCount++
+			if l.Replay != "" {
+				a.knownFails = append(a.knownFails, l)
+			}
+		} else {
+			a.fails = append(a.fails, l)
+		}
 	}
 }
 
@@ -378,7 +388,7 @@ func cmdCheck(args []string) int {
 					}
 					args := []string{"run", "-prop", e.prop, "-tier", e.tier, "-seed", strconv.FormatUint(e.seed, 10),
 						"-from", strconv.FormatInt(from, 10), "-n", strconv.FormatInt(n, 10), "-outdir", e.faildir,
-						"-deadline", strconv.FormatInt(deadline.Unix(), 10)}
+						"-deadline", strconv.FormatInt(deadline.Unix(), 10), "-known", filepath.Join(e.verif, "known_findings.json")}
 					if j.ff {
 						args = append(args, "-faultfree")
 					}
@@ -444,13 +454,34 @@ func cmdCheck(args []string) int {
 	inconclusive := 0
 	reported := map[string]bool{}
 	exit := 0
-	for _, f := range a.fails {
+	// one representative per known finding is confirmed and kept as a replay file too
+	seenKnown := map[string]bool{}
+	var todo []line
+	todo = append(todo, a.fails...)
+	for _, f := range a.knownFails {
+		k := f.Class + "|" + fmt.Sprint(f.Shape)
+		if !seenKnown[k] {
+			seenKnown[k] = true
+			todo = append(todo, f)
+		}
+	}
+	for _, f := range todo {
 		if f.Inconclusive {
 			inconclusive++
 			fmt.Fprintf(os.Stderr, "kapsim: inconclusive run seed=%d class=%s: %s\n", f.Seed, f.Class, truncate(f.Detail, 400))
 			continue
 		}
 		key := f.Class + "|" + fmt.Sprint(f.Shape)
+		if f.Known {
+			// one line per known-findings entry, not per shape variant
+			for i := range findings {
+				k := &findings[i]
+				if k.Status == "known" && k.Property == e.prop && k.Class == f.Class && shapeMatches(k.Shape, f.Shape) {
+					key = "known|" + k.What
+					break
+				}
+			}
+		}
 		if reported[key] {
 			continue
 		}
@@ -493,6 +524,9 @@ func cmdCheck(args []string) int {
 			}
 		}
 		dst := filepath.Join(e.verif, "replays", fmt.Sprintf("%s-%d.json", e.prop, f.Seed))
+		if match != nil {
+			dst = filepath.Join(e.verif, "replays", "known", fmt.Sprintf("%s-%s.json", e.prop, slug(match.Class+"-"+fmt.Sprint(match.Shape))))
+		}
 		os.MkdirAll(filepath.Dir(dst), 0755)
 		if err := copyFile(final, dst); err != nil {
 			fmt.Fprintln(os.Stderr, "kapsim: cannot store replay file:", err)
@@ -750,4 +784,21 @@ func cmdReplay(args []string) int {
 	}
 	fmt.Printf("VIOLATION property=%s replay=%s\n  class=%s %s\n  %s\n", rf.Property, file, l.Class, same, truncate(l.Detail, 3000))
 	return 1
+}
+
+func slug(s string) string {
+	var b strings.Builder
+	for _, r := range s {
+		switch {
+		case r >= 'a' && r <= 'z', r >= 'A' && r <= 'Z', r >= '0' && r <= '9':
+			b.WriteRune(r)
+		default:
+			b.WriteByte('_')
+		}
+	}
+	out := b.String()
+	if len(out) > 80 {
+		out = out[:80]
+	}
+	return out
 }
